@@ -724,6 +724,46 @@ func buildMake(typ string) *Built {
 		return mkOf[uintptr]()
 	case "string":
 		return mkOf[string]()
+	case "local1":
+		return mkLocal1()
+	case "local2":
+		return mkLocal2()
+	case "tree":
+		return mkOf[*mkTree]()
+	case "nestedptr":
+		return mkOf[mkNested]()
 	}
 	panic("unknown Make type " + typ)
+}
+
+// two distinct types with the same name (declared in different function scopes): reflect.Type.String() is the same for both
+func mkLocal1() *Built {
+	type id uint8
+	type rec struct {
+		ID   id
+		Tags []id
+		M    map[id]bool
+	}
+	return mkOf[rec]()
+}
+
+func mkLocal2() *Built {
+	type id string
+	type rec struct {
+		M    map[id]int8
+		ID   id
+		Tags [2]id
+	}
+	return mkOf[rec]()
+}
+
+type mkTree struct {
+	V    int8
+	L, R *mkTree
+}
+
+type mkNested struct {
+	A *struct{ X *int8 }
+	B *struct{ Y *string }
+	C **struct{ Z *uint16 }
 }
